@@ -7,7 +7,7 @@ VERIF = os.path.dirname(os.path.dirname(os.path.abspath(__file__)))
 sys.path.insert(0, VERIF)
 os.chdir(VERIF)
 
-WRAPPER_PROPS = ('C01', 'C02', 'C05', 'C06', 'C07', 'C15', 'C16', 'C18')
+WRAPPER_PROPS = ('C01', 'C02', 'C05', 'C06', 'C07', 'C08', 'C15', 'C16', 'C18')
 
 
 def main(argv):
@@ -30,6 +30,23 @@ def main(argv):
 
 def replay(path):
     doc = json.load(open(path))
+    if doc.get('replay_kind') == 'cache':
+        from contracts import cache_replay as CR
+        w = doc['cache_witness']
+        c = CR.build(w['pre']['mem'], w['pre']['A'], w['pre']['S'])
+        pre = CR.snap(c)
+        out, exc = None, None
+        try:
+            out = getattr(c, w['op'])(*w['args']) if hasattr(c, w['op']) else None
+        except Exception as e:       # noqa
+            exc = e
+        bad = CR.judge(w['op'], tuple(w['args']), pre, CR.snap(c), out, exc)
+        print('cache in state %s, operation %s%r -> %s' % (json.dumps(w['pre']), w['op'], tuple(w['args']), json.dumps(CR._j(CR.snap(c)))))
+        if bad:
+            print('REPRODUCED: %s is violated by the real klepto._archives.cache on this input (%s)' % (bad, doc.get('obligation')))
+            return 1
+        print('not reproduced')
+        return 0
     if doc.get('replay_kind') == 'history':
         from contracts import wrapper_explore as WE
         v = doc['history']
